@@ -92,6 +92,22 @@ def earlier_session():
         q.build_decay_chains(n, stable_particles=["gamma"])
 
 
+def _query_all(p):
+    for n in P + ["D*-", "Xi_c0", "Orig3"]:
+        try:
+            p.build_decay_chains(n)
+            p.list_decay_modes(n)
+        except DecayNotFound:
+            pass
+
+
+def _reparse(p, include_cc):
+    import warnings
+    with warnings.catch_warnings():
+        warnings.simplefilter("ignore")
+        p.parse(include_ccdecays=include_cc)
+
+
 def oracle_chain(tables, m, S):
     out = []
     for bf, ds, mo, pa in tables[m]:
@@ -133,7 +149,21 @@ def body_chains(sel: int) -> bool:
     tables, text = build(codes, twin, defmode)
     if sel % 3 == 2:
         earlier_session()
-    p = parse(text)
+    hist = sel % 5
+    if hist == 1:
+        # the same parser object was first parsed without charge conjugates and queried, then parsed again: only the last parse counts
+        p = parse(text, include_cc=False)
+        _query_all(p)
+        _reparse(p, True)
+    elif hist == 3:
+        # ... and the other way round: tables created by CDecay are gone again after parsing without conjugates
+        p = parse(text)
+        _query_all(p)
+        _reparse(p, False)
+        if defmode == 2 and P[4] in tables:
+            tables = {k: v for k, v in tables.items() if k != P[4]}
+    else:
+        p = parse(text)
     sets = ALL_SETS if os.environ.get("VERIF_TIER") == "thorough" else [ALL_SETS[(sel * 7 + k * 9) % len(ALL_SETS)] for k in range(8)]
     for mi, m in enumerate(P + ["D*-", "Xi_c0", "Orig3"]):
         if m in ("D*-", "Xi_c0", "Orig3") and m not in tables:
